@@ -54,6 +54,12 @@ func (f *Frame) call(ins ssa.CallInstruction, st State) (State, Val) {
 	// callback parameter: pure application model (closures of this frame that
 	// have contracts are described to the model first)
 	f.closureSummariesAll(st)
+	if !derivesFromParam(common.Value, 0) {
+		// not a callback parameter: a function value read from memory. The pure
+		// model is an assumption here and is listed as such.
+		f.vc.Trusted["a function value read from memory (not a parameter) is called in "+f.label+" and modelled as a pure callback"] = true
+		f.vc.Outside["dynamic call through a stored function value"] = true
+	}
 	return f.callbackCall(fv.T, args, sig, st, ins)
 }
 
@@ -1454,4 +1460,41 @@ func closureOnlyAppends(fn *ssa.Function, fv *ssa.FreeVar) bool {
 		}
 	}
 	return true
+}
+
+// derivesFromParam: the value is a parameter / captured variable of function
+// type, possibly through phis and loads of captured cells.
+func derivesFromParam(v ssa.Value, depth int) bool {
+	if depth > 6 {
+		return false
+	}
+	switch x := v.(type) {
+	case *ssa.Parameter, *ssa.FreeVar:
+		return true
+	case *ssa.Phi:
+		for _, e := range x.Edges {
+			if !derivesFromParam(e, depth+1) {
+				return false
+			}
+		}
+		return true
+	case *ssa.UnOp:
+		if _, ok := x.X.(*ssa.FreeVar); ok {
+			return true
+		}
+		if a, ok := x.X.(*ssa.Alloc); ok {
+			// a parameter spilled to a cell
+			for _, r := range *a.Referrers() {
+				if st, ok := r.(*ssa.Store); ok && st.Addr == a {
+					if !derivesFromParam(st.Val, depth+1) {
+						return false
+					}
+				}
+			}
+			return true
+		}
+	case *ssa.ChangeType:
+		return derivesFromParam(x.X, depth+1)
+	}
+	return false
 }
